@@ -334,7 +334,7 @@ pub fn gen_config(profile: Profile, run_seed: u64, index: u64) -> BCfg {
             c.stale_ppm = 0;
             c.clock_fail_ppm = 0;
             c.phc = 0;
-            c.leap_base = ((index * 64) % 65536) as u32;
+            c.leap_base = ((index * 8) % 65536) as u32;
             c.clients.truncate(1);
             c.horizon_ns = r.range(40, 70) * SEC;
             c.delay_ppm = *r.pick(&[0u32, 0, 1_500]);
